@@ -396,17 +396,8 @@ class Runner:
         return obs
 
 
-def local_findings(ctx):
-    """findings.d/C12.json is merged into known_findings.json by the integrator; until then read it directly."""
-    p = os.path.join(os.path.dirname(os.path.dirname(os.path.abspath(__file__))), 'findings.d', ctx.prop + '.json')
-    if os.path.exists(p):
-        have = {f.get('id') for f in ctx.findings}
-        ctx.findings += [f for f in json.load(open(p)) if f.get('id') not in have and f.get('property') == ctx.prop]
-
-
 def run(ctx):
     quick = ctx.tier == 'quick'
-    local_findings(ctx)
     ctx.cov['rule'] = (
         'one case = one scripted connection against the real KmipSession with a real engine behind it: '
         '(a) every catalogue request (26 operations incl. batches and engine-unsupported ones, 7 Register types) under every '
